@@ -169,9 +169,27 @@ Qed.
 
 (* ------------------------------------------------------------------ 3. mixed frequencies are rejected *)
 
+(* the constructor assembled from the fragments regenerated from Span.__init__ is the constructor as it was modelled by
+   hand: missing end points default to the contextual start / end in the direction of the step, needs_resolve is the
+   disjunction, and a resolved span is accepted only when _check_periods passes *)
+Lemma span_make_unfold : forall a b step, span_make a b step =
+  let s := match a with Some e => e | None => Ctx (step >? 0) 0 end in
+  let e := match b with Some e => e | None => Ctx (negb (step >? 0)) 0 end in
+  let needs := ep_needs s || ep_needs e in
+  if needs then Ok (mkSpan s e step true)
+  else match s, e with
+       | At p, At q => if check_periods p (Some q) then Ok (mkSpan s e step false) else Err ErrFreq
+       | _, _ => Err ErrFreq
+       end.
+Proof.
+  intros a b step. unfold span_make, gen_span_init_start, gen_span_init_end, gen_span_init_needs,
+    gen_span_init_checks_when_resolved.
+  destruct a as [[p | fa oa] |], b as [[q | fb ob] |], (step >? 0); reflexivity.
+Qed.
+
 Lemma span_make_mixed : forall p q step, p_freq p <> p_freq q ->
   span_make (Some (At p)) (Some (At q)) step = Err ErrFreq.
-Proof. intros. unfold span_make. cbn [ep_needs orb]. rewrite check_some_false by assumption. reflexivity. Qed.
+Proof. intros. rewrite span_make_unfold. cbn [ep_needs orb]. rewrite check_some_false by assumption. reflexivity. Qed.
 
 Theorem mixed_frequency_rejected : forall p q step, p_freq p <> p_freq q ->
   psub p q = Err ErrFreq /\
@@ -551,7 +569,7 @@ Definition span_wf (s : span) : Prop :=
 
 Lemma span_make_wf : forall a b c s, span_make a b c = Ok s -> span_wf s.
 Proof.
-  intros a b c s H. unfold span_make in H.
+  intros a b c s H. rewrite span_make_unfold in H. cbv zeta in H.
   set (x := match a with Some e => e | None => Ctx (c >? 0) 0 end) in *.
   set (y := match b with Some e => e | None => Ctx (negb (c >? 0)) 0 end) in *.
   destruct (ep_needs x || ep_needs y) eqn:N.
@@ -722,7 +740,7 @@ Proof.
   - intros l L. rewrite (resolved_iter s p q c Hn Hs He Hc Hnz) in L. injection L as <-.
     rewrite (resolved_iter s' _ _ c Hn' Hs' He' Hc' Hnz), CNT, map_map. f_equal. apply map_ext. intros i.
     rewrite !padd_padd. f_equal. lia.
-  - intros F. unfold span_add, span_make. rewrite Hs, He. cbn [ep_add ep_needs orb].
+  - intros F. unfold span_add. rewrite span_make_unfold. rewrite Hs, He. cbn [ep_add ep_needs orb].
     rewrite (proj2 (check_some (padd p k) (padd q k))) by exact F.
     subst s'. unfold sstep, with_state, gen_span_shift. rewrite Hs, He, Hn, Hc. reflexivity.
 Qed.
@@ -799,13 +817,22 @@ Proof. intros c e. destruct e as [p | [|] o]; cbn; eauto. Qed.
 
 Lemma span_make_at : forall p q c, span_make (Some (At p)) (Some (At q)) c =
   if check_periods p (Some q) then Ok (mkSpan (At p) (At q) c false) else Err ErrFreq.
-Proof. reflexivity. Qed.
+Proof. intros. rewrite span_make_unfold. reflexivity. Qed.
+
+(* Span.resolve as regenerated from the source (gen_span_resolve): an end point that is already a period is kept, a
+   contextual one is resolved, and the result is built by the constructor *)
+Lemma span_resolve_unfold : forall c s, span_resolve c s =
+  span_make (Some (ep_resolve c (sp_start s))) (Some (ep_resolve c (sp_end s))) (sp_step s).
+Proof.
+  intros c s. unfold span_resolve, gen_span_resolve.
+  destruct (sp_start s) as [p | [|] o], (sp_end s) as [q | [|] o']; reflexivity.
+Qed.
 
 (* resolving against a context commutes with every in-place operation *)
 Theorem resolve_then_ops_commute : forall c s o,
   span_resolve c (sstep s o) = dmap (fun r => sstep r o) (span_resolve c s).
 Proof.
-  intros c s o. unfold span_resolve.
+  intros c s o. rewrite !span_resolve_unfold.
   destruct (ep_resolve_at c (sp_start s)) as (p & P). destruct (ep_resolve_at c (sp_end s)) as (q & Q).
   destruct o; unfold sstep, with_state, gen_span_reverse, gen_span_shift, gen_span_shift_start, gen_span_shift_end;
     cbn [sp_start sp_end sp_step]; rewrite ?ep_resolve_add, P, Q; cbn [ep_add]; rewrite !span_make_at.
@@ -1137,4 +1164,168 @@ Proof.
   split.
   - intros pos. rewrite A, ymd_of_ord_of_ymd by assumption. reflexivity.
   - rewrite B, year_of_ord_of_ymd, doy_of_ord_ymd by assumption. reflexivity.
+Qed.
+
+(* ------------------------------------------------------------------ 12. resolution never mixes frequencies *)
+
+(* the frequency an end point has once it is resolved against the context c *)
+Definition ep_freq_in (c : context) (e : endpoint) : Z :=
+  match e with
+  | At p => p_freq p
+  | Ctx true _ => p_freq (c_start c)
+  | Ctx false _ => p_freq (c_end c)
+  end.
+
+Lemma ep_resolve_freq : forall c e p, ep_resolve c e = At p -> p_freq p = ep_freq_in c e.
+Proof.
+  intros c e p H. destruct e as [r | [|] o]; cbn in H; injection H as <-; cbn [ep_freq_in]; rewrite ?padd_freq; reflexivity.
+Qed.
+
+(* Span.resolve(context), for EVERY span (concrete, half-open, fully open, any offsets, any step, any value of the
+   needs_resolve flag) and EVERY context: it either rejects with IrisPieError -- exactly when the two resolved ends are
+   periods of different frequencies -- or returns a resolved span whose two ends are periods of ONE frequency, namely
+   the fixed end points / the context's dates moved by the offsets, with the step unchanged *)
+Theorem resolve_rejects_or_single_frequency : forall c s,
+  match span_resolve c s with
+  | Err e => e = ErrFreq /\ ep_freq_in c (sp_start s) <> ep_freq_in c (sp_end s)
+  | Ok r => sp_needs r = false /\ sp_step r = sp_step s /\
+            sp_start r = ep_resolve c (sp_start s) /\ sp_end r = ep_resolve c (sp_end s) /\
+            exists p q, sp_start r = At p /\ sp_end r = At q /\ p_freq p = p_freq q /\
+                        p_freq p = ep_freq_in c (sp_start s) /\ p_freq q = ep_freq_in c (sp_end s)
+  end.
+Proof.
+  intros c s. rewrite span_resolve_unfold.
+  destruct (ep_resolve_at c (sp_start s)) as (p & P). destruct (ep_resolve_at c (sp_end s)) as (q & Q).
+  rewrite P, Q, span_make_at.
+  pose proof (ep_resolve_freq _ _ _ P) as FP. pose proof (ep_resolve_freq _ _ _ Q) as FQ.
+  destruct (check_periods p (Some q)) eqn:K.
+  - apply check_some in K. cbn [sp_needs sp_step sp_start sp_end]. repeat split. exists p, q. repeat split; assumption.
+  - split; [reflexivity |]. intros F. rewrite <- FP, <- FQ in F. apply check_some in F. congruence.
+Qed.
+
+(* both directions at once: resolution succeeds iff the fixed end points and the context dates that are used have one
+   frequency; otherwise the mix is rejected, never returned *)
+Theorem resolve_accepts_iff_one_frequency : forall c s,
+  (ep_freq_in c (sp_start s) = ep_freq_in c (sp_end s) ->
+     span_resolve c s = Ok (mkSpan (ep_resolve c (sp_start s)) (ep_resolve c (sp_end s)) (sp_step s) false)) /\
+  (ep_freq_in c (sp_start s) <> ep_freq_in c (sp_end s) -> span_resolve c s = Err ErrFreq).
+Proof.
+  intros c s. rewrite span_resolve_unfold.
+  destruct (ep_resolve_at c (sp_start s)) as (p & P). destruct (ep_resolve_at c (sp_end s)) as (q & Q).
+  rewrite P, Q, span_make_at.
+  rewrite <- (ep_resolve_freq _ _ _ P), <- (ep_resolve_freq _ _ _ Q). split; intros F.
+  - apply check_some in F. rewrite F. reflexivity.
+  - rewrite check_some_false by assumption. reflexivity.
+Qed.
+
+(* the call shapes of the property text: a half-open span with one fixed end of frequency F resolved against a context
+   whose date on the open side has another frequency, and a fully open span against a context whose two dates differ *)
+Theorem resolve_half_open_mixed_rejected : forall c p (b : bool) o step needs,
+  p_freq (if b then c_start c else c_end c) <> p_freq p ->
+  span_resolve c (mkSpan (At p) (Ctx b o) step needs) = Err ErrFreq /\
+  span_resolve c (mkSpan (Ctx b o) (At p) step needs) = Err ErrFreq.
+Proof.
+  intros c p b o step needs F.
+  split; apply (proj2 (resolve_accepts_iff_one_frequency c _)); cbn [sp_start sp_end ep_freq_in]; destruct b; congruence.
+Qed.
+
+Theorem resolve_open_mixed_context_rejected : forall c b o o' step needs,
+  p_freq (c_start c) <> p_freq (c_end c) ->
+  span_resolve c (mkSpan (Ctx b o) (Ctx (negb b) o') step needs) = Err ErrFreq.
+Proof.
+  intros c b o o' step needs F.
+  apply (proj2 (resolve_accepts_iff_one_frequency c _)); cbn [sp_start sp_end ep_freq_in]; destruct b; cbn [negb]; congruence.
+Qed.
+
+(* a resolved span lists periods of its one frequency only, as many as the serial distance says *)
+Theorem resolved_listing_one_frequency : forall c s r l,
+  span_resolve c s = Ok r -> span_iter r = Ok l -> forall x, In x l -> p_freq x = ep_freq_in c (sp_start s) /\
+                                                                       p_freq x = ep_freq_in c (sp_end s).
+Proof.
+  intros c s r l R L x X. pose proof (resolve_rejects_or_single_frequency c s) as H. rewrite R in H.
+  destruct H as (N & _ & _ & _ & p & q & Sp & Sq & F & FP & FQ).
+  unfold span_iter in L. rewrite N in L. unfold span_freq in L. rewrite Sp in L.
+  destruct (span_serials r) as [zs | e]; cbn [dmap] in L; [| discriminate]. injection L as <-.
+  apply in_map_iff in X. destruct X as (z & <- & _). cbn [p_freq]. split; congruence.
+Qed.
+
+(* every public way of deriving a span from a span: the in-place mutators, + - >> << reversed(), and resolve against an
+   arbitrary context; an operation that raises leaves the span as it was *)
+Inductive span_op :=
+| PMut (o : sop) | PAdd (k : Z) | PSub (k : Z) | PRsh (k : Z) | PLsh (k : Z) | PReversed | PResolve (c : context).
+
+Definition apply_op (s : span) (a : span_op) : dres span :=
+  match a with
+  | PMut o => Ok (sstep s o)
+  | PAdd k => span_add s k
+  | PSub k => span_sub s k
+  | PRsh k => span_rshift s k
+  | PLsh k => span_lshift s k
+  | PReversed => Ok (span_reversed s)
+  | PResolve c => span_resolve c s
+  end.
+
+Fixpoint run_public (s : span) (l : list span_op) : span :=
+  match l with
+  | [] => s
+  | a :: r => match apply_op s a with Ok s' => run_public s' r | Err _ => run_public s r end
+  end.
+
+Lemma apply_op_wf : forall s a s', span_wf s -> apply_op s a = Ok s' -> span_wf s'.
+Proof.
+  intros s a s' W H. destruct a; cbn [apply_op] in H.
+  - injection H as <-. apply sstep_wf. assumption.
+  - eapply span_make_wf. exact H.
+  - eapply span_make_wf. exact H.
+  - unfold span_rshift in H. destruct (k <? 0); [discriminate |]. eapply span_make_wf. exact H.
+  - unfold span_lshift in H. destruct (k >? 0); [discriminate |]. eapply span_make_wf. exact H.
+  - injection H as <-. apply sstep_wf. assumption.
+  - rewrite span_resolve_unfold in H. eapply span_make_wf. exact H.
+Qed.
+
+Lemma run_public_wf : forall l s, span_wf s -> span_wf (run_public s l).
+Proof.
+  induction l as [| a l IH]; intros s W; cbn [run_public]; [assumption |].
+  destruct (apply_op s a) as [s' | e] eqn:A; apply IH; [eapply apply_op_wf; eassumption | assumption].
+Qed.
+
+(* HISTORIES: whatever sequence of public operations -- including any number of resolutions against contexts of any
+   frequencies -- is applied to a span that the constructor accepted, a span that claims to be resolved has two period
+   ends of ONE frequency, and its listing has that frequency *)
+Theorem every_history_single_frequency : forall l a b c s, span_make a b c = Ok s ->
+  let t := run_public s l in
+  span_wf t /\
+  (sp_needs t = false -> exists p q, sp_start t = At p /\ sp_end t = At q /\ p_freq p = p_freq q /\
+                                    forall xs x, span_iter t = Ok xs -> In x xs -> p_freq x = p_freq p).
+Proof.
+  intros l a b c s M t. assert (W : span_wf t) by (apply run_public_wf; eapply span_make_wf; exact M).
+  split; [exact W |]. intros N. destruct W as (_ & W2). destruct (W2 N) as (p & q & Sp & Sq & F).
+  exists p, q. repeat split; try assumption. intros xs x L X.
+  unfold span_iter in L. rewrite N in L. unfold span_freq in L. rewrite Sp in L.
+  destruct (span_serials t) as [zs | e]; cbn [dmap] in L; [| discriminate]. injection L as <-.
+  apply in_map_iff in X. destruct X as (z & <- & _). reflexivity.
+Qed.
+
+(* non-vacuity: a quarterly start with an open end against a monthly context is rejected, against a quarterly context
+   it resolves and lists quarters; a fully open span against a context with a quarterly start and a monthly end is
+   rejected; a history with two resolutions of which the first is rejected *)
+Example resolve_examples :
+  (exists s, span_make (Some (At (mkP 4 8080))) None 1 = Ok s /\ sp_needs s = true /\
+     span_resolve (mkCtx (mkP 12 24240) (mkP 12 24246)) s = Err ErrFreq /\
+     (exists r, span_resolve (mkCtx (mkP 4 8078) (mkP 4 8083)) s = Ok r /\
+                span_iter r = Ok [mkP 4 8080; mkP 4 8081; mkP 4 8082; mkP 4 8083]) /\
+     (exists r, run_public s [PMut (OShiftEnd (-1)); PResolve (mkCtx (mkP 12 24240) (mkP 12 24246)); PMut OReverse;
+                              PResolve (mkCtx (mkP 4 8078) (mkP 4 8083))] = r /\
+                span_iter r = Ok [mkP 4 8082; mkP 4 8081; mkP 4 8080])) /\
+  (exists s, span_make None None (-2) = Ok s /\
+     span_resolve (mkCtx (mkP 4 8078) (mkP 12 24246)) s = Err ErrFreq /\
+     exists r, span_resolve (mkCtx (mkP 12 24240) (mkP 12 24246)) s = Ok r /\
+               span_iter r = Ok [mkP 12 24246; mkP 12 24244; mkP 12 24242; mkP 12 24240]).
+Proof.
+  split.
+  - eexists. split; [reflexivity |]. split; [reflexivity |]. split; [vm_compute; reflexivity |]. split.
+    + eexists. split; vm_compute; reflexivity.
+    + eexists. split; [reflexivity |]. vm_compute. reflexivity.
+  - eexists. split; [reflexivity |]. split; [vm_compute; reflexivity |].
+    eexists. split; vm_compute; reflexivity.
 Qed.
